@@ -190,7 +190,8 @@ def snapshot(m, roots_data, knobs):
         kind = "expr" if isinstance(t, ExprTask) else "knob" if isinstance(t, LinearKnob) else "fun"
         tasks.append([tid_path(tid), kind, [ref_path(x) for x in t.dependencies], [ref_path(x) for x in t.targets]])
     prev = [[tid_path(t.taskid), t.prev_value] for t in m.tasks.values() if isinstance(t, LinearKnob)]
-    return {"store": st, "indices": idx, "tasks": tasks, "prev": prev, "frozen": bool(m._tree_frozen)}
+    return {"store": st, "indices": idx, "tasks": tasks, "prev": prev, "frozen": bool(m._tree_frozen),
+            "dump": [[a, b] for a, b in m.dump()]}
 
 
 def canon_ok(m):
@@ -522,6 +523,8 @@ def run_case(case, opts):
                 m.verify()
             elif kind == "cleanup":
                 m.cleanup()
+            elif kind == "setattr_raw":
+                setattr(mkref(roots, op[1]), op[2], op[3])
             elif kind == "genfun":
                 obs["genfun"] = gen_fun_check(m, roots, roots_data, op[1], op[2], obs)
                 if obs["genfun"].get("err"):
